@@ -221,7 +221,7 @@ func setupOracle(e *Env, o core.RunOpts) error {
 	e.W = w
 	w.F = faults
 	act := &OracleActor{MaxOpen: e.Ch.Range("cfg.oracle.maxopen", 1, 6), ReqRate: 150 + e.Ch.Intn("cfg.oracle.reqrate", 500),
-		Scripts: []int{scriptEcho, scriptSimple, scriptNoRet, scriptTrap, scriptBadPre, scriptNoRaw}, NumDS: len(dss),
+		Scripts: []int{scriptEcho, scriptSimple, scriptNoRet, scriptTrap, scriptBadPre, scriptNoRaw, scriptEmpty}, NumDS: len(dss),
 		ActivateP: 1000, Byz: e.Ch.Intn("cfg.oracle.byz", 400), ReactivateP: 100}
 	if e.Ch.Bool("cfg.oracle.someinactive", 300) {
 		act.ActivateP = 700
@@ -239,6 +239,11 @@ func setupOracle(e *Env, o core.RunOpts) error {
 			msg := banktypes.NewMsgSend(w.Users[i].Addr, w.Users[0].Addr, all.Sub(keep...))
 			w.Submit(&world.Intent{Signer: w.Users[i], Msgs: []sdk.Msg{msg}, Tag: "drain", Meta: &bankMeta{Msg: msg}})
 		}
+	}
+	if (o.Prop == "C09" || o.Prop == "C01") && e.Ch.Bool("cfg.oracle.samplingchurn", 400) {
+		gov := &GovActor{}
+		e.Shared["gov"] = gov
+		e.Actors = append(e.Actors, gov, &SamplingParamChurn{Rate: 20 + e.Ch.Intn("cfg.oracle.churnrate", 60)})
 	}
 	e.Monitors = append(e.Monitors, NewC01(), &C09{}, c13)
 	e.MaxSteps = e.Ch.Range("cfg.steps", 30, 90)
@@ -288,6 +293,14 @@ func setupTSS(e *Env, o core.RunOpts) error {
 	shadow := NewTSSShadow(pool)
 	e.Shared["tss.shadow"] = shadow
 	e.Shared["tss.pool"] = pool
+	// C13: oracle requests whose result the group signs (the requester pays the signing fee out of the request's fee limit)
+	withOracle := o.Prop == "C13" && e.Ch.Bool("cfg.tss.withoracle", 800)
+	if withOracle {
+		op := drawOracleParams(e)
+		e.Shared["oracle.genesis.params"] = op
+		treas := world.NewAccount(o.Seed, "treasury")
+		cfg.GenesisMods = append(cfg.GenesisMods, oracleGenesis(e, op, []dsSpec{{Fee: sdk.NewCoins(), Treasury: treas, Exec: []byte("x")}, {Fee: sdk.NewCoins(), Treasury: treas, Exec: []byte("y")}}))
+	}
 	cfg.GenesisMods = append(cfg.GenesisMods, govGenesis(4*time.Second), quietEconomy(),
 		tssGenesis(e, tssGenesisCfg{TSSParams: tp, BandtssParams: bp, GroupMembers: pool.Members, Threshold: thr, InitialDEs: e.Ch.Intn("cfg.tss.initde", int(tp.MaxDESize)+1), GrindKey: e.Ch.Bool("cfg.tss.grindkey", 60)}))
 	w, err := world.New(e.Ch, e.Log, e.St, cfg, o.Scratch)
@@ -308,6 +321,11 @@ func setupTSS(e *Env, o core.RunOpts) error {
 	e.Actors = append(e.Actors,
 		&TSSActor{Pool: pool, ByzP: e.Ch.Intn("cfg.tss.byz", 500), ReactP: 100 + e.Ch.Intn("cfg.tss.react", 400), OverDEP: e.Ch.Intn("cfg.tss.overde", 120)},
 		&SigRequester{Rate: 200 + e.Ch.Intn("cfg.sigreq.rate", 600), MaxOpen: 1 + e.Ch.Intn("cfg.sigreq.maxopen", 5), Senders: w.Users[size:], LimitW: []int{70, 10, 10, 10}, RollbackP: 80})
+	if withOracle {
+		e.Actors = append(e.Actors, &OracleActor{MaxOpen: 3, ReqRate: 400, Scripts: []int{scriptEcho, scriptSimple}, NumDS: 2, ActivateP: 1000, ReactivateP: 300,
+			TSSEncoder: true, Requesters: w.Users[size:], FeeLimit: sdk.NewCoins(sdk.NewInt64Coin("uband", 1000), sdk.NewInt64Coin("uusd", 1000))})
+		e.St.Probe("c13_signing_profile_with_oracle_requests")
+	}
 	e.Monitors = append(e.Monitors, &C05{}, &C03{}, &C10{}, &C09{WithTSS: true}, &C13{WithTSS: true})
 	e.MaxSteps = e.Ch.Range("cfg.steps", 30, 90)
 	if o.Thorough {
@@ -371,6 +389,9 @@ func setupTransition(e *Env, o core.RunOpts) error {
 	dkg := &DKGActor{Pool: pool, DeviateP: e.Ch.Intn("cfg.dkg.deviate", 250), SilentP: e.Ch.Intn("cfg.dkg.silent", 40), NonMemberP: 30}
 	if o.Prop == "C18" {
 		dkg.DeviateP /= 3
+	}
+	if o.Prop == "C04" {
+		dkg.CorruptP = []int{0, 300, 600}[e.Ch.Intn("cfg.dkg.corruptheavy", 3)]
 	}
 	e.Shared["dkg.actor"] = dkg
 	e.Actors = append(e.Actors, gov,
@@ -770,7 +791,7 @@ func setupFuzz(e *Env, o core.RunOpts) error {
 		lazy[v.Val.String()] = []int{0, 100, 400}[e.Ch.Intn("cfg.feeder.lazy", 3)]
 	}
 	e.Actors = append(e.Actors, gov,
-		&OracleActor{MaxOpen: 3, ReqRate: 200, Scripts: []int{scriptEcho, scriptSimple, scriptNoRet, scriptTrap, scriptBadPre, scriptNoRaw}, NumDS: len(dss), ActivateP: 900, ReactivateP: 250, Byz: 150,
+		&OracleActor{MaxOpen: 3, ReqRate: 200, Scripts: []int{scriptEcho, scriptSimple, scriptNoRet, scriptTrap, scriptBadPre, scriptNoRaw, scriptEmpty}, NumDS: len(dss), ActivateP: 900, ReactivateP: 250, Byz: 150,
 			TSSEncoder: true, Requesters: voters, FeeLimit: sdk.NewCoins(sdk.NewInt64Coin("uband", 1000), sdk.NewInt64Coin("uusd", 1000))},
 		&StakeActor{Voters: voters, Rate: 200, Denoms: []string{"uusd", "uatom", "uband"}, VaultKeys: []string{"vaultA"}},
 		&VoteActor{Voters: voters, Signals: signals, Rate: 250, WrapP: 60},
